@@ -23,3 +23,11 @@ package yae
 
 //@ entry (*Expr).envCheck
 //@   props C12 C07
+
+// Engine state (C14): once an engine has been initialised (makeSureInit, on
+// its first compilation) the compile / invoke path only reads it.
+//@ global Expr
+//@   props C13 C14
+//@   uses yae.(*Expr).makeSureInit
+//@   writers oper.Sort
+//@   note NewLexer / NewParser pass the engine's operator slice to oper.Sort (sort.SliceStable, in place); after the first compilation the slice is sorted and a stable sort of a sorted slice writes nothing - the property's own carve-out ("an instance that has finished its first compilation")
